@@ -36,6 +36,7 @@ and the property says: the call resolves at m = min(done, deadline) — as soon 
 at an instant >= m, and it must have been woken at the first instant >= m that virtual time
 visits — with the inner result if done < deadline, with the timeout error if deadline < done.
 """
+import random
 from gen.util import kvs, tparse
 
 
@@ -384,6 +385,28 @@ def _decorate(rng, header, ops):
             else:
                 at = rng.choice(pos) if pos and rng.random() < 0.7 else rng.randint(0, len(out))
             out.insert(at, "probe woken c=%s" % c)
+    return _construction_context({"header": header, "ops": out})
+
+
+BUILT = ["here", "other-idle", "other-dropped"]
+
+
+def _construction_context(case):
+    """which tokio runtime is current while the layer and the services are constructed (`built=`): the case's own, or a second
+    runtime that is then left idle / dropped; in the header (everything the adapter constructs) and on arrivals (the service this
+    arrival builds lazily: services of one case built in different contexts).  A time limiter is a value: the model has no
+    construction context at all (theorem construction_context_irrelevant).  Drawn from a generator of its own, seeded by the
+    finished case: the cases are, but for these words, the ones they were."""
+    import hashlib
+    rng = random.Random(int(hashlib.sha1((case["header"] + "|" + "|".join(case["ops"])).encode()).hexdigest()[:12], 16))
+    header, out = case["header"], list(case["ops"])
+    if rng.random() < 0.35:
+        header += " built=%s" % rng.choice(BUILT[1:])
+    if rng.random() < 0.5:
+        p = rng.choice([0.3, 0.6, 1.0])
+        for i, o in enumerate(out):
+            if o.startswith("arrive ") and " svc=" in o and rng.random() < p:
+                out[i] = o + " built=%s" % rng.choice(BUILT)
     return {"header": header, "ops": out}
 
 
@@ -1144,6 +1167,16 @@ def _entry_tags(case, lines, meta, cancel, script):
                 tags.append("not-woken-before-min")
             if m >= INF:
                 tags.append("woken-probe-nothing-armed")
+    # construction context: services built while a second runtime was current (`#built <t> svc=<k> <where>`), and calls made
+    # through them on the case's runtime
+    built_where = {}
+    for _, m in meta:
+        w = m.split()
+        if w[:1] == ["#built"] and len(w) > 3:
+            tags.append("built-" + w[3])
+            built_where[w[2][4:]] = w[3]
+    if built_where and hk.get("built", "here") != "here" and any(kvs(o).get("built") == "here" for o in case["ops"] if o.startswith("arrive ")):
+        tags.append("built-mixed")
     forget_lines = [m.split() for _, m in meta if m.startswith("#forget")]
     for w in forget_lines:
         tags.append("forget-layer" if w[2:] == ["layer"] else "forget-handle" if len(w) > 3 else "forget-service")
@@ -1154,6 +1187,9 @@ def _entry_tags(case, lines, meta, cancel, script):
     made = {}            # (svc, h) -> callers that were given a call future on that handle, with the instant
     calls_of_svc = {}    # svc -> [(caller, instant)]
     layer_forgotten = False
+    hb = hk.get("built") if hk.get("built") in BUILT else "here"
+    ctx = {}             # svc -> the construction context of its present incarnation
+    zero_initial = True  # service 0 is the one the adapter built at the start (header context)
     for o in case["ops"]:
         w = o.split()
         if not w:
@@ -1172,6 +1208,8 @@ def _entry_tags(case, lines, meta, cancel, script):
                     # every handle of a service goes away while a detached call made through it is still running (seeded/C06-w5m2 for one service)
                     tags.append("forget-service-detached-running")
                 svcs.discard(k)
+                if k == "0":
+                    zero_initial = False
                 for key in [x for x in made if x[0] == k]:
                     del made[key]
             elif "svc" in kv:
@@ -1188,6 +1226,7 @@ def _entry_tags(case, lines, meta, cancel, script):
             k = kv.get("svc", "0")
             if k not in svcs:
                 svcs.add(k)
+                ctx[k] = hb if (k == "0" and zero_initial) or kv.get("built") not in BUILT else kv["built"]
                 if k != "0":
                     tags.append("svc-several")
                     if kv.get("lc") == "1":
@@ -1197,6 +1236,14 @@ def _entry_tags(case, lines, meta, cancel, script):
             refused = c in res_t and c not in called and (res_t[c][1] == "notready" or res_t[c][1].startswith("err:inner9:"))
             if c in script and not refused:
                 calls_of_svc.setdefault(k, []).append((c, now))
+            if c in called and ctx.get(k, "here") != "here":
+                # a call made on the case's runtime through a service assembled while another runtime was current (seeded/C06-w6m1)
+                tags.append("call-built-%s-%s" % (ctx[k], "cancel" if cancel else "nocancel"))
+                if not cancel and c in res_t:
+                    if res_t[c][1].split("!")[0] != "err:timeout":
+                        tags.append("built-elsewhere-detached-intime-result")
+                    elif c in end_t and end_t[c] > res_t[c][0]:
+                        tags.append("built-elsewhere-detached-completes-after-timeout")
             if "h" in kv:
                 key = (k, kv["h"])
                 if key not in made:
@@ -1229,6 +1276,9 @@ ALL = ["woken-probe-nothing-pending", "woken-at-deadline", "woken-at-done", "wok
        "svc-after-forget-layer", "handle-kept", "handle-clone-after-call", "handle-reused", "handle-reused-call-in-flight",
        "readyerr-on-handle-calls-in-flight", "forget-handle", "forget-service", "forget-layer", "forget-service-detached-running",
        "timeout-zero-nocancel",
+       "built-other-idle", "built-other-dropped", "built-mixed", "call-built-other-idle-cancel", "call-built-other-idle-nocancel",
+       "call-built-other-dropped-cancel", "call-built-other-dropped-nocancel", "built-elsewhere-detached-intime-result",
+       "built-elsewhere-detached-completes-after-timeout",
        "readiness-script", "readiness-recovery", "readiness-recovery-per-instance", "refused-notready", "refused-readyerr",
        "refused-by-script", "refused-while-recovering", "never-ready", "accepted-after-refusal", "timeout-after-refusal",
        "timeout-max", "timeout-max-cancel-own", "timeout-max-cancel-default", "timeout-max-nocancel-own", "timeout-max-nocancel-default",
@@ -1276,7 +1326,11 @@ LEVEL_NOTE = ("Trusted: Lean kernel; the transcription of tokio::time::timeout (
               "handles built from one layer value behave as the model says (i.e. do not matter) is observed by the correspondence check and the "
               "monitors c06-timeout-source / c06-error-accessors (c06-listeners pins the listener count: a broken correspondence, not a failing "
               "input); TimeLimiterConfig has no public constructor, so `From<TimeLimiterConfig>` for the layer and `Clone` of the config cannot be "
-              "entered from outside the crate.")
+              "entered from outside the crate. "
+              "Construction context: that the real service does the same whichever runtime was current while it was built (a second runtime "
+              "left idle or dropped; calls made on the case's runtime) is observed by the correspondence check and stated directly by "
+              "c06-resolution-instant / c06-intime-result-lost / c06-background-completion on those cases; services built on a runtime "
+              "of ANOTHER OS thread that is being driven concurrently are not generated (single-threaded harness).")
 
 SPECS = {
     "C06": {
@@ -1307,7 +1361,11 @@ SPECS = {
                 "the chain (45% of the chains), in 45% of the cases 1..3 services built lazily from the one layer value (or a clone of it), calls made "
                 "on kept handles that are re-used while earlier calls are in flight and cloned after calls, handles / whole services / the layer "
                 "value dropped at any point, (25%) probes of the stand-alone timeout source cloned / boxed along a random path, and (45%) 1..6 `probe woken` "
-                "observations of a caller's waker, mostly soon after its first poll / after the clock moved; latencies at timeout-1/timeout/timeout+1/0/random/never, ok/err (few panics), creation "
+                "observations of a caller's waker, mostly soon after its first poll / after the clock moved, and the construction context (drawn from "
+                "a generator of its own seeded by the finished case): in 35% of the cases everything the adapter constructs (builder chain, build(), "
+                "Layer::layer) is constructed while a SECOND current-thread tokio runtime is current, which is then kept idle or dropped, the calls "
+                "being made on the case's own runtime, and in 50% the services built lazily by svc= arrivals each get a context of their own "
+                "(here / other-idle / other-dropped); latencies at timeout-1/timeout/timeout+1/0/random/never, ok/err (few panics), creation "
                 "separated from the first poll, advances biased to done/deadline -1/0/+1 and to jumps over both (late polls); distinct = "
                 "distinct implementation event log; non-trivial = a timeout, a tie, a late poll, a dropped or detached inner call",
         "level_text": "Theorems TR.Props.C06.{builder_mode_last_wins, builder_source_last_wins, nocancel_chain_never_drops, timeout_source, deadline_from_first_poll, awake_characterisation, resolves_from_wake, resolves_by_deadline, "
@@ -1315,7 +1373,7 @@ SPECS = {
                       "result_if_earlier, intime_result_never_lost, unlimited_resolves_with_inner_result, timeout_if_later, cancel_drops_at_deadline, "
                       "nocancel_runs_to_completion, nocancel_timeout_leaves_task, readiness_propagates, refusals_change_no_call, arrival_meets_readiness, "
                       "resolves_by_deadline_whatever_readiness, independent, builder_entry_points, source_copies_agree, error_accessors, "
-                      "services_independent, zero_timeout_nocancel_detaches, trace_is_the_log, result_lines_are_history, one_result_per_caller, "
+                      "services_independent, zero_timeout_nocancel_detaches, construction_context_irrelevant, trace_is_the_log, result_lines_are_history, one_result_per_caller, "
                       "woken_iff_poll_resolves, resolves_no_later_than_timeout, resolves_no_later_than_timeout_whatever_readiness, "
                       "pending_call_never_overdue, log_never_resolves_early, log_inner_result_is_the_inner_outcome, log_timeout_only_if_unfinished, "
                       "log_cancel_drops_at_deadline, log_nocancel_runs_to_completion, first_poll_nocancel_spawns_only, first_poll_cancel, "
@@ -1336,7 +1394,9 @@ SPECS = {
                       "answers what every call captures; is_timeout() / into_inner() / ResilienceError::from say what the delivered variant says "
                       "(is_timeout only at or after the deadline); for any division of the callers into services / handles each group's records are "
                       "those of the run of that group alone; a zero timeout without cancellation reports the timeout and then starts the detached "
-                      "inner call, which is never dropped. Over the observable log (trace = State.log with the instant of every line, what the "
+                      "inner call, which is never dropped; the model has no construction context — which runtime was current while the service was "
+                      "assembled (built=here|other-idle|other-dropped) is no input of any of these statements, and a built= word in the header or "
+                      "on an arrive line changes neither the machine's initial state nor its step. Over the observable log (trace = State.log with the instant of every line, what the "
                       "driver prints): the result lines of a caller are exactly the results of its ghost history (both directions, with instant and "
                       "serial), at most one per caller, and more: the lines of a caller in the log, in order, ARE its history; the inner_done lines of one "
                       "advance stand in timer order (instant, then serial); a result line never stands before min(done, deadline), a non-timeout result is the inner "
